@@ -13,11 +13,11 @@ CONFIG = {
              'set keeps bytes, mtime and inode, every directory not recorded as created stays; '
              'evaluations = API calls judged; distinct_nontrivial = distinct (program shape, step '
              'kinds) histories with >=1 hit and >=1 miss'),
-    'gates': ['builds_committed', 'builds_rolled_back', 'cleans', 'ev:os.rmdir|post-root',
+    'gates': ['swap_cases', 'swap_cases_rolled_back', 'builds_committed', 'builds_rolled_back', 'cleans', 'ev:os.rmdir|post-root',
               'ev:os.rename|root', 'ev:os.remove|post-root', 'ev:os.remove|clean', 'ev:os.rmdir|clean'],
 }
 
-KINDS = {'foreign_event', 'foreign_changed'}
+KINDS = {'foreign_event', 'foreign_changed', 'rollback_tree'}
 
 WEIGHTS = {'write': 3, 'modify': 2, 'delete': 2, 'mkdir': 1.5, 'touch': 0.5, 'recreate': 0.5,
            'swap': 1.5, 'tamper_output': 2, 'delete_output': 1.5, 'plant_in_created': 4,
@@ -29,6 +29,8 @@ def select(d):
 
 
 def run_shard(sh):
+    from .swapcases import run_swap_cases
+    run_swap_cases(sh, select, 'C03', nested_cache=sh.idx % 2 == 1)
     run_histories(sh, select=select, steps_range=(4, 8) if sh.tier == 'quick' else (6, 14),
                   nested_prob=0.35, clean_prob=0.2, fail_prob=0.2, mut_weights=WEIGHTS,
                   mut_range=(1, 3))
